@@ -138,6 +138,11 @@ func decodeShort(hash, buf, elems []byte, cachegen uint16) (node, error) {
 	if err != nil {
 		return nil, err
 	}
+	if len(kbuf) == 0 {
+		// hexToCompact always writes the flag byte: an empty key string is malformed
+		// (and compactToHex would index an empty slice)
+		return nil, fmt.Errorf("empty compact key")
+	}
 	flag := nodeFlag{hash: hash, gen: cachegen}
 	key := compactToHex(kbuf)
 	if hasTerm(key) {
